@@ -5,6 +5,7 @@
   `C01.C01_reachable` that is every state reachable by public calls (returning or raising).
 -/
 import XgiModel.C06.Lemmas
+import XgiModel.C06.LemmasDi
 import XgiModel.Props.C01
 
 namespace Xgi.C06
@@ -173,13 +174,18 @@ theorem multi_asdict_keys_view_order (view : List PyId) (cols : List (String × 
     (multiAsdict view cols).map (·.1) = view := by
   unfold multiAsdict; simp [List.map_map, Function.comp_def]
 
+/-- the table, cell by cell -/
+theorem multiVal_eq (view : List PyId) (cols : List (String × List (PyId × α))) :
+    multiVal view cols = view.map (fun n => (n, cols.map (fun c => (c.1, dget (asdict view c.2) n)))) := by
+  unfold multiVal; simp [List.map_map, Function.comp_def]
+
 /-- the cell (n, stat) of the table is the value the single stat reports for n -/
 theorem multi_cell {view : List PyId} {cols : List (String × List (PyId × α))} {n : PyId} (hn : n ∈ view)
     {c : String × List (PyId × α)} (hc : c ∈ cols) (hnames : (cols.map (·.1)).Nodup) :
     sget (dget (multiAsdict view cols) n) c.1 = dget (asdict view c.2) n := by
   unfold multiAsdict
-  rw [dget_map_self (fun n => dget (multiVal view cols) n) hn]
-  unfold multiVal
+  simp only []
+  rw [dget_map_self (fun n => dget (multiVal view cols) n) hn, multiVal_eq]
   rw [dget_map_self (fun n => cols.map (fun c => (c.1, dget (asdict view c.2) n))) hn]
   exact sget_map_self (fun c : String × List (PyId × α) => c.1) (fun c => dget (asdict view c.2) n) hc hnames
 
@@ -199,18 +205,19 @@ theorem multi_rows {view : List PyId} (cols : List (String × List (PyId × α))
     multiAsdictT view cols = cols.map (fun c => (c.1, asdict view c.2)) := by
   refine ⟨?_, rfl, rfl⟩
   unfold multiAslist
+  simp only []
   apply List.map_congr_left
   intro n hn
-  unfold multiVal
-  rw [dget_map_self (fun n => cols.map (fun c => (c.1, dget (asdict view c.2) n))) hn]
+  rw [multiVal_eq, dget_map_self (fun n => cols.map (fun c => (c.1, dget (asdict view c.2) n))) hn]
   simp [List.map_map, Function.comp_def]
 
 /-- the data frame: index = view order, columns = the stat names, rows = `aslist()` -/
 theorem multi_aspandas_spec {view : List PyId} (cols : List (String × List (PyId × α))) :
     (multiAspandas view cols).1 = view ∧ (multiAspandas view cols).2.1 = cols.map (·.1) ∧
     (multiAspandas view cols).2.2 = multiAslist view cols := by
-  refine ⟨rfl, rfl, ?_⟩
-  rw [(multi_rows cols).1]; rfl
+  refine ⟨rfl, ?_, ?_⟩
+  · unfold multiAspandas; simp [List.map_map, Function.comp_def]
+  · rw [(multi_rows cols).1]; unfold multiAspandas; simp [List.map_map, Function.comp_def]
 
 end formats
 
@@ -582,6 +589,73 @@ theorem maximal_strict_spec {s : HG} (h : WF s) (e : PyId) :
     · intro ⟨hf, hsub⟩; exact hall f hf hsub
     · intro hfe; subst hfe; exact ⟨he, fun n hn => hn⟩
 
+/-! ### directed: in/out/total degrees and head/tail sizes against the directed incidence -/
+
+/-- total degree = |in ∪ out| memberships = number of current edges with the node in tail or head -/
+theorem di_degree_spec {s : DiSt} (h : WFd s) {n : PyId} (hn : n ∈ s.nodes) :
+    s.degree none n = (dedup (s.membIn n ++ s.membOut n)).length ∧
+    s.degree none n = (s.edges.filter (fun e => decide (n ∈ s.tail e ∨ n ∈ s.head e))).length := by
+  refine ⟨rfl, ?_⟩
+  have := (degree_eq_memberships (wf_tot h) (n := n) hn).2
+  unfold DiSt.degree
+  rw [this]
+  congr 1
+  apply List.filter_congr
+  intro e _
+  simp [DiSt.tot, DiSt.proj, DiSt.mem]
+
+/-- out-degree = number of current edges with the node in the tail; in-degree likewise for heads -/
+theorem di_out_in_degree_spec {s : DiSt} (h : WFd s) {n : PyId} (hn : n ∈ s.nodes) :
+    s.outDegree none n = (s.edges.filter (fun e => decide (n ∈ s.tail e))).length ∧
+    s.inDegree none n = (s.edges.filter (fun e => decide (n ∈ s.head e))).length :=
+  ⟨(degree_eq_memberships (wf_outP h) (n := n) hn).2, (degree_eq_memberships (wf_inP h) (n := n) hn).2⟩
+
+/-- size = |tail ∪ head|, tail_size = |tail|, head_size = |head|; every order is the size minus one -/
+theorem di_size_spec (s : DiSt) (d : Option Int) (e : PyId) :
+    s.size none e = (dedup (s.tail e ++ s.head e)).length ∧ s.tailSize none e = (s.tail e).length ∧
+    s.headSize none e = (s.head e).length ∧ s.order d e = (s.size d e : Int) - 1 ∧
+    s.tailOrder d e = (s.tailSize d e : Int) - 1 ∧ s.headOrder d e = (s.headSize d e : Int) - 1 :=
+  ⟨rfl, rfl, rfl, rfl, rfl, rfl⟩
+
+/-- the out-degrees sum to the tail sizes -/
+theorem di_handshake_out_tail {s : DiSt} (h : WFd s) :
+    (s.nodes.map (fun n => s.outDegree none n)).sum = (s.edges.map (fun e => s.tailSize none e)).sum :=
+  handshake (wf_outP h)
+
+/-- the in-degrees sum to the head sizes -/
+theorem di_handshake_in_head {s : DiSt} (h : WFd s) :
+    (s.nodes.map (fun n => s.inDegree none n)).sum = (s.edges.map (fun e => s.headSize none e)).sum :=
+  handshake (wf_inP h)
+
+/-- the total degrees sum to the sizes -/
+theorem di_handshake_total {s : DiSt} (h : WFd s) :
+    (s.nodes.map (fun n => s.degree none n)).sum = (s.edges.map (fun e => s.size none e)).sum :=
+  handshake (wf_tot h)
+
+/-- directed `neighbors`: the other IDs sharing an edge with n, in any role -/
+theorem di_neighbors_spec {s : DiSt} (h : WFd s) {n : PyId} (hn : n ∈ s.nodes) :
+    ∃ l, neighbors s.tot .node n 1 = some l ∧
+      ∀ m, m ∈ l ↔ m ≠ n ∧ ∃ e ∈ s.edges, (n ∈ s.tail e ∨ n ∈ s.head e) ∧ (m ∈ s.tail e ∨ m ∈ s.head e) := by
+  obtain ⟨l, hl, hs⟩ := neighbors_spec (wf_tot h) (n := n) hn
+  refine ⟨l, hl, fun m => ?_⟩
+  rw [hs m]
+  simp [DiSt.tot, DiSt.proj, DiSt.mem]
+
+/-- directed `lookup` / `duplicates` / `isolates` / `empty`: the undirected definitions on the member
+    unions (tail ∪ head, in ∪ out) -/
+theorem di_queries_spec {s : DiSt} (h : WFd s) (sought : List PyId) (e n : PyId) :
+    (e ∈ lookup s.tot .edge sought ↔ e ∈ s.edges ∧ ∀ x, (x ∈ s.tail e ∨ x ∈ s.head e) ↔ x ∈ sought) ∧
+    (n ∈ isolates s.tot false ↔ n ∈ s.nodes ∧ ∀ f ∈ s.edges, n ∉ s.tail f ∧ n ∉ s.head f) ∧
+    (e ∈ empty s.tot ↔ e ∈ s.edges ∧ ∀ x, x ∉ s.tail e ∧ x ∉ s.head e) ∧
+    (e ∈ duplicates s.tot .edge ↔ e ∈ s.edges ∧
+      (∃ f ∈ s.edges, f ≠ e ∧ ∀ x, (x ∈ s.tail f ∨ x ∈ s.head f) ↔ (x ∈ s.tail e ∨ x ∈ s.head e)) ∧
+      rep (classOf s.tot .edge e) ≠ some e) := by
+  refine ⟨?_, ?_, ?_, ?_⟩
+  · rw [(lookup_spec s.tot .edge sought e).1]; simp [DiSt.tot, DiSt.proj, DiSt.mem, keys, tab]
+  · rw [isolates_spec (wf_tot h)]; simp [DiSt.tot, DiSt.proj, DiSt.mem]
+  · rw [empty_spec]; simp [DiSt.tot, DiSt.proj, DiSt.mem]
+  · rw [duplicates_spec (wf_tot h)]; simp [DiSt.tot, DiSt.proj, DiSt.mem, keys, tab]
+
 /-! ### non-vacuity: a concrete history reaches a non-trivial state on which everything evaluates -/
 
 private def demo : HG :=
@@ -614,5 +688,17 @@ example : aspandas demo.nodes (evalStat (fun n => degree demo none n) [.int 1, .
     = ([.int 3, .int 1, .int 2, .int 9], [3, 3, 2, 0]) := by decide
 /-- an empty edge together with a non-empty one: the empty edge is not maximal (finding F6b, repaired) -/
 example : (PyId.int 3) ∉ maximal demo false := by decide
+
+private def ddemo : DiSt :=
+  { nodes := [.int 2, .int 1, .int 3], edges := [.int 0, .int 1],
+    tail := fun e => if e = .int 0 then [.int 1, .int 2] else if e = .int 1 then [.int 3] else [],
+    head := fun e => if e = .int 0 then [.int 3, .int 2] else if e = .int 1 then [.int 1] else [],
+    membOut := fun n => if n = .int 1 then [.int 0] else if n = .int 2 then [.int 0] else if n = .int 3 then [.int 1] else [],
+    membIn := fun n => if n = .int 3 then [.int 0] else if n = .int 2 then [.int 0] else if n = .int 1 then [.int 1] else [],
+    nattr := fun _ => [], eattr := fun _ => [] }
+
+example : ddemo.nodes.map (ddemo.outDegree none) = [1, 1, 1] ∧ ddemo.edges.map (ddemo.tailSize none) = [2, 1] := by decide
+example : ddemo.nodes.map (ddemo.degree none) = [1, 2, 2] ∧ ddemo.edges.map (ddemo.size none) = [3, 2] := by decide
+example : neighbors ddemo.tot .node (.int 1) 1 = some [.int 3, .int 2] := by decide
 
 end Xgi.C06
